@@ -1,0 +1,61 @@
+//go:build verif
+
+package iavl
+
+import (
+	"bytes"
+	"fmt"
+)
+
+// VerifCheckShape walks every node reachable from the root of t and checks the AVL balance
+// condition, the stored height and size fields and the key ordering. It exists only for the
+// verification harness (build tag verif) and is never called by production code.
+func VerifCheckShape(t *ImmutableTree) error {
+	if t == nil || t.root == nil {
+		return nil
+	}
+	_, _, _, err := verifWalk(t, t.root)
+	return err
+}
+
+func verifWalk(t *ImmutableTree, n *Node) (height int8, size int64, minKey []byte, err error) {
+	if n.isLeaf() {
+		if n.height != 0 || n.size != 1 {
+			return 0, 0, nil, fmt.Errorf("leaf %x has height %d size %d", n.key, n.height, n.size)
+		}
+		return 0, 1, n.key, nil
+	}
+	l, r := n.getLeftNode(t), n.getRightNode(t)
+	if l == nil || r == nil {
+		return 0, 0, nil, fmt.Errorf("inner node %x misses a child", n.key)
+	}
+	lh, ls, lmin, err := verifWalk(t, l)
+	if err != nil {
+		return 0, 0, nil, err
+	}
+	rh, rs, rmin, err := verifWalk(t, r)
+	if err != nil {
+		return 0, 0, nil, err
+	}
+	h := lh
+	if rh > h {
+		h = rh
+	}
+	h++
+	if n.height != h {
+		return 0, 0, nil, fmt.Errorf("inner node %x stores height %d, subtree height is %d", n.key, n.height, h)
+	}
+	if n.size != ls+rs {
+		return 0, 0, nil, fmt.Errorf("inner node %x stores size %d, subtree holds %d leaves", n.key, n.size, ls+rs)
+	}
+	if d := int(lh) - int(rh); d > 1 || d < -1 {
+		return 0, 0, nil, fmt.Errorf("inner node %x is unbalanced: left height %d, right height %d", n.key, lh, rh)
+	}
+	if !bytes.Equal(n.key, rmin) {
+		return 0, 0, nil, fmt.Errorf("inner node key %x is not the smallest key %x of its right subtree", n.key, rmin)
+	}
+	if bytes.Compare(lmin, n.key) >= 0 {
+		return 0, 0, nil, fmt.Errorf("inner node %x: left subtree starts at %x", n.key, lmin)
+	}
+	return h, ls + rs, lmin, nil
+}
